@@ -56,10 +56,54 @@ def canon(arr):
     return c
 
 
+_ABI = {}
+
+
+def native_adapter(so_path):
+    """read_bes_raw replacement: the working tree's raw_io.cc behind a C ABI (native/rawabi.cc), same dict-of-NumPy result"""
+    import ctypes
+    import numpy as np
+    if so_path not in _ABI:
+        lib = ctypes.CDLL(so_path)
+        lib.raw_abi_parse.argtypes = [ctypes.c_void_p, ctypes.c_size_t, ctypes.c_uint, ctypes.POINTER(ctypes.c_char_p)]
+        lib.raw_abi_parse.restype = ctypes.c_int
+        lib.raw_abi_free.argtypes = [ctypes.c_void_p]
+        _ABI[so_path] = lib
+    lib = _ABI[so_path]
+    DT = {"u1": np.uint8, "u2": np.uint16, "u4": np.uint32, "u8": np.uint64}
+    names = ["mdc", "tof", "emc", "muc", "trg", "ef"]
+
+    def conv(o):
+        if isinstance(o, dict) and set(o.keys()) == {"d", "a"}:
+            return np.array(o["a"], dtype=DT[o["d"]])
+        if isinstance(o, dict):
+            return {k: conv(v) for k, v in o.items()}
+        if isinstance(o, list):
+            return tuple(conv(v) for v in o)
+        return o
+
+    def read_bes_raw(data, sub_detectors=()):
+        data = np.ascontiguousarray(data, dtype=np.uint32)
+        mask = 0
+        for s in sub_detectors:
+            mask |= (1 << names.index(s)) if s in names else 64
+        out = ctypes.c_char_p()
+        ptr = ctypes.c_void_p()
+        rc = lib.raw_abi_parse(data.ctypes.data, data.size, mask, ctypes.cast(ctypes.byref(ptr), ctypes.POINTER(ctypes.c_char_p)))
+        txt = ctypes.string_at(ptr.value).decode()
+        lib.raw_abi_free(ptr)
+        if rc != 0:
+            raise RuntimeError(txt)
+        return conv(json.loads(txt))
+    return read_bes_raw
+
+
 def run_call(call):
     import pybes3
     import pybes3.besio.raw_io as rio
     from concurrent.futures import ThreadPoolExecutor
+    if call.get("native_so"):
+        rio.read_bes_raw = native_adapter(call["native_so"])
     orders = []
     rng = random.Random(call.get("delay_seed") or 0)
     delayed = call.get("delay_seed") is not None
@@ -131,11 +175,12 @@ def main():
         except Exception:  # noqa
             pass
         jobs = json.load(open(sys.argv[2]))
-        for i in range(int(sys.argv[3]), int(sys.argv[4])):
-            r = run_call(jobs["calls"][i])
-            r["_i"] = i
-            sys.stdout.write(json.dumps(r) + "\n")
-            sys.stdout.flush()
+        with open(sys.argv[5], "w") as fo:          # a file, not a pipe: answers can be large and must survive a kill
+            for i in range(int(sys.argv[3]), int(sys.argv[4])):
+                r = run_call(jobs["calls"][i])
+                r["_i"] = i
+                fo.write(json.dumps(r) + "\n")
+                fo.flush()
         return
     jobs = json.load(open(sys.argv[1]))
     calls = jobs["calls"]
@@ -166,8 +211,11 @@ def main():
     while pending or running:
         while pending and len(running) < 10:
             a, b, lim = pending.pop(0)
-            p = subprocess.Popen([sys.executable, os.path.abspath(__file__), "--chunk", sys.argv[1], str(a), str(b)],
-                                 stdout=subprocess.PIPE, stderr=subprocess.PIPE, text=True)
+            op = "%s.out.%d" % (sys.argv[1], a)
+            if os.path.exists(op):
+                os.remove(op)
+            p = subprocess.Popen([sys.executable, os.path.abspath(__file__), "--chunk", sys.argv[1], str(a), str(b), op],
+                                 stdout=subprocess.DEVNULL, stderr=subprocess.PIPE, text=True)
             running.append((p, a, b, time.time() + lim))
         time.sleep(0.1)
         for item in list(running):
@@ -177,7 +225,11 @@ def main():
             timed_out = p.poll() is None
             if timed_out:
                 p.kill()
-            so, se = p.communicate()
+            _, se = p.communicate()
+            op = "%s.out.%d" % (sys.argv[1], a)
+            so = open(op).read() if os.path.exists(op) else ""
+            if os.path.exists(op):
+                os.remove(op)
             for line in so.split("\n"):
                 if line.strip():
                     try:
